@@ -220,6 +220,9 @@ def match_known(prop, features, known=None):
             if isinstance(v, list):
                 if fv not in v:
                     ok = False
+            elif isinstance(v, dict) and "equals" in v:
+                if fv != v["equals"]:
+                    ok = False
             elif isinstance(v, dict) and "prefix" in v:
                 if not (isinstance(fv, str) and fv.startswith(v["prefix"])):
                     ok = False
